@@ -145,7 +145,11 @@ var fnsOfType = map[int64][]int64{1: {1, 2}, 2: {3}, 3: {4}, 4: {}}
 
 // GenPlan builds a random world: 1-3 local entities with 2-4 features each, 2-3 peers
 // whose trees reuse the same entity and feature numbers.
-func GenPlan(r *hx.Rng) *Plan {
+func GenPlan(r *hx.Rng) *Plan { return GenPlanFocus(r, 0) }
+
+// GenPlanFocus biases feature types towards focus (0 = no bias), so that many remote
+// client features are compatible with the same local server features.
+func GenPlanFocus(r *hx.Rng, focus int64) *Plan {
 	pl := &Plan{}
 	lents := [][]int64{{1}, {2}, {1, 1}}[:r.Range(1, 3)]
 	for _, e := range lents {
@@ -156,6 +160,9 @@ func GenPlan(r *hx.Rng) *Plan {
 			t := int64(r.Range(1, 3))
 			if r.Chance(1, 10) {
 				t = 4
+			}
+			if focus != 0 && r.Chance(2, 3) {
+				t = focus
 			}
 			role := int64(1)
 			if r.Chance(1, 4) {
@@ -189,10 +196,16 @@ func GenPlan(r *hx.Rng) *Plan {
 		for _, e := range [][]int64{{1}, {2}, {1, 1}}[:r.Range(1, 3)] {
 			p.Ents = append(p.Ents, e)
 			n := r.Range(1, 3)
+			if focus != 0 {
+				n = r.Range(2, 4)
+			}
 			for i := 0; i < n; i++ {
 				t := int64(r.Range(1, 3))
 				if r.Chance(1, 10) {
 					t = 4
+				}
+				if focus != 0 && r.Chance(3, 4) {
+					t = focus
 				}
 				role := int64(0)
 				if r.Chance(1, 5) {
